@@ -31,3 +31,5 @@ def run(ck):
     fresh.constructor_state(ck, "C20.R2")            # results and operands are built by the constructor: own status record, own final configuration
     conv.array_protocol_values(ck, "C15.R6")
     funcs.route_selection(ck, "C07.R8")
+    fresh.no_hidden_state(ck, "C20.R8")                  # results depend on the documented state only (no caches / memos)
+    funcs.functions_return_results(ck, "C15.R7")
